@@ -63,7 +63,7 @@ def run(spec, mon):
             continue
         mix = rng.choice(S.MIXES)
         try:
-            sc = S.build(rng, mix, n=rng.choice([6, 12]), consistent=rng.random() < 0.5)
+            sc = S.build(rng, mix, n=rng.choice([6, 12]), consistent=rng.random() < 0.5, drop_zero_assets=True)
         except Exception as e:
             import traceback
 
@@ -112,8 +112,10 @@ def one_case(mon, rng, sc, c):
             # same positions => every market must also REPORT the same balance (derived views, caches) as before the call
             post_bal = balances(fz)
             mon.ev()
-            if post_bal != pre_bal:
-                changed = sorted(k for k in post_bal if post_bal[k] != pre_bal.get(k))
+            # a market that could not report a balance before the call (it reads a wallet entry that did not exist yet) gives
+            # nothing to compare with
+            changed = sorted(k for k in post_bal if post_bal[k] != pre_bal.get(k) and not str(pre_bal.get(k)).startswith("<"))
+            if changed:
                 mon.violation(
                     op.market, op.label, "reported-balance-changed-after-reject", site,
                     f"{op.market}.{op.label}[{op.cls}] raised {type(res.exc).__name__}: {str(res.exc)[:100]}; positions unchanged but "
